@@ -94,7 +94,7 @@ def jobs(tier, seed):
         js.append({'harness': 'sp', 'weight': 40, 'opts': {'max_paths': 8000},
                    'cfg': {'kind': 'SP', 'rate': 8, 'table': t, 'flows': [0, 1, 1, 0], 'sorts': 'int', 'split_gap': [1, 3], 'smax': 3}})
     # priority values need not be integers (2.25 < 2.75: same integer part)
-    for t in ({0: 2.25, 1: 2.75}, {0: 2.75, 1: 2.25}):
+    for t in ({0: 2.25, 1: 2.75}, {0: 2.75, 1: 2.25}, {0: 8, 1: 10}, {0: 1000, 1: 9}):
         js.append({'harness': 'sp', 'weight': 12,
                    'cfg': {'kind': 'SP', 'rate': 8, 'table': t, 'flows': [0, 1, 0, 1], 'sorts': 'int', 'burst': [0, 1, 1, 1]}})
         js.append({'harness': 'sp', 'weight': 12,
